@@ -71,10 +71,18 @@ def gen_case(rng, frontend=None):
             continue   # mostly writes: they are what can interfere
         if framer == 'rtu' and 'raw' in r and len(r['raw']) != r.get('byte_count', r.get('write_byte_count')):
             continue   # on RTU the byte count field delimits the frame: a mismatch is a framing error, not a request
-        f = serverlib.frame_request(framer, r, uid, rng.randrange(65536))
+        tid = rng.randrange(65536)
+        f = serverlib.frame_request(framer, r, uid, tid)
         if framer == 'binary' and framelib.has_delim(f):
             continue
         steps.append({'uid': uid, 'req': r, 'frame': f})
+        if rng.random() < 0.2 and len(hosted) > 1:
+            # the same request, with the same transaction id, straight away for ANOTHER unit (a master that numbers its
+            # requests per unit, or polls several units with one template): it is a different request, not a retransmission
+            u2 = rng.choice([u for u in hosted + [0, 255] if u != uid])
+            f2 = serverlib.frame_request(framer, r, u2, tid)
+            if not (framer == 'binary' and framelib.has_delim(f2)):
+                steps.append({'uid': u2, 'req': r, 'frame': f2})
     if not single and len(units) >= 2 and len(steps) >= 2 and rng.random() < 0.3:
         # the application removes a hosted unit while the server runs (`del context[u]`): later requests must see the new set
         u = rng.choice([x for x, _ in units][:-1] + [units[0][0]])
